@@ -116,9 +116,18 @@ def gen(rng, tier):
 def corpus():
     c = g.Cfg(base=b"a", crit=None, cap=16)
     c2 = g.Cfg(base=b"b", crit="s6", naming="num", cap=16)
-    return ["flw %d 0 ; B:%s W:%s W:%s XR:%s:%s R W:%s F X:%s W:%s W:%s W:%s S SN" % (
+    out = ["flw %d 0 ; B:%s W:%s W:%s XR:%s:%s R W:%s F X:%s W:%s W:%s W:%s S SN" % (
         g.T0, c.token(), g.hx(b"A0\n"), g.hx(b"B1\n"), g.hx(c.name(b"")), g.hx(b"moved.txt"), g.hx(b"C2\n"),
         c2.token(), g.hx(b"D3dddd\n"), g.hx(b"E4\n"), g.hx(b"F5\n"))]
+    # reset_flw to the SAME rotating family without append while records are still buffered, with a compressing cleanup: the
+    # new writer closes rCURRENT and the cleanup archives it - the buffered tail must be in that file before
+    for naming in ("num", "ts"):
+        for cl in ("g30", "b0.30"):
+            a = g.Cfg(base=b"a", crit="s40", naming=naming, cap=64, cleanup=cl)
+            b = g.Cfg(base=b"a", crit="s12", naming=naming, cap=64, cleanup=cl)
+            out.append("flw %d 0 ; B:%s W:%s W:%s W:%s X:%s W:%s W:%s S SN" % (
+                g.T0, a.token(), g.hx(b"A0\n"), g.hx(b"B1\n"), g.hx(b"C2\n"), b.token(), g.hx(b"D3\n"), g.hx(b"E4\n")))
+    return out
 
 
 def directed_direct_naming(rng, n):
